@@ -105,6 +105,15 @@ theorem inv_step (cfg : Cfg) (t : T) (hi : Inv cfg t) (op : Op) : Inv cfg (step 
   | remove p => exact ⟨hi.nodup, hi.sound⟩
   | rename p q => simp only [step]; split <;> exact ⟨hi.nodup, hi.sound⟩
   | appendLine p l => simp only [step]; split <;> (try split) <;> exact ⟨hi.nodup, hi.sound⟩
+  | patternPoll =>
+    -- the streams have not looked yet: whatever was tailed still is, and what the globs add is
+    -- eligible and new
+    have pp := pats_fold cfg cfg.patterns t
+    refine ⟨pp.nodup hi.nodup, ?_⟩
+    intro p hp
+    rcases pp.added p hp with h | ⟨_, hig, pat, hpat, hm⟩
+    · exact hi.sound p h
+    · exact ⟨hig, pat, hpat, hm⟩
   | poll =>
     have h := after_poll_tailed_eq_eligible cfg t hi
     refine ⟨h.1, ?_⟩
@@ -148,6 +157,13 @@ example :
     let cfg : Cfg := ⟨[[100, 47, 42]], fun pat p => pat = [100, 47, 42] && p.take 2 = [100, 47], fun _ => false⟩
     (run cfg {} [.mkdir [100], .createOther [100, 47, 48] .device, .createOther [100, 47, 49] .socket,
       .createFile [100, 47, 97], .poll]).streams = [[100, 47, 97]] := by decide
+
+/-- a pattern poll that comes before the stream has looked at its path again does not start a
+    second stream on a log that was removed and has come back: the path is still in the map -/
+example :
+    let cfg : Cfg := ⟨[[100, 47, 42]], fun pat p => pat = [100, 47, 42] && p.take 2 = [100, 47], fun _ => false⟩
+    (run cfg {} [.mkdir [100], .createFile [100, 47, 97], .poll, .remove [100, 47, 97], .patternPoll,
+        .createFile [100, 47, 97], .patternPoll, .poll]).streams = [[100, 47, 97]] := by decide
 
 /-- a device that takes the place of a tailed log is followed by the stream that was there; a socket
     that does ends it, and the next poll starts afresh on the log that comes back -/
